@@ -351,6 +351,35 @@ def rule_list_sibling(ctx, px):
            "" if ok else f"_generate guarded by {list(g)}", run.node.lineno)
 
 
+def rule_lister(ctx, px):
+    R = "R-C08-LIST-SIBLING"
+    # (clause of the listing rule: what is printed is one well-formed list)
+    f = px.func(RUN_MOD, "ArgparseRunner._stdout_lister")
+    ps = [a.arg for a in f.node.args.args if a.arg != "self"]
+    things, tostr = ps[0], ps[1]
+    li = px.func(RUN_MOD, "ArgparseRunner._list_inputs_only")
+    lo = px.func(RUN_MOD, "ArgparseRunner._list_outputs_only")
+    n_calls = max(sum(1 for c in ast.walk(g.node) if isinstance(c, ast.Call) and isinstance(c.func, ast.Attribute) and c.func.attr == "_stdout_lister") for g in (li, lo))
+    ok, why = False, ""
+    loops = [n for n in f.node.body if isinstance(n, ast.For) and ast.unparse(n.iter) == things]
+    if len(loops) == 1 and isinstance(loops[0].target, ast.Name):
+        v = loops[0].target.id
+        writes = [ast.unparse(st.value.args[0]) for st in loops[0].body if isinstance(st, ast.Expr) and isinstance(st.value, ast.Call)
+                  and ast.unparse(st.value.func) in ("sys.stdout.write", "print") and st.value.args]
+        item = f"{tostr}({v})"
+        ok = writes in ([item, "';'"], [f"{item} + ';'"], [f"f'{{{item}}};'"])
+        why = f"loop writes {writes}"
+    else:
+        src = ast.unparse(f.node)
+        # a join is fine when every item still carries its own terminator, or when the listing functions print one list only
+        terminated = f"''.join(({tostr}(" in src.replace(" ", "") and "+';'" in src.replace(" ", "")
+        ok = terminated or (n_calls <= 1 and "';'.join(" in src)
+        why = "items are joined with a separator between them only"
+    ctx.ob(R, f.module.rel, f"{f.short} :: every item is followed by the separator, so that the {n_calls} listings of one run form one list", ok,
+           "" if ok else f"{why}: the listing functions call the lister once per group (types, support files, DSDL files), and without a terminator the last item of "
+           "one group runs into the first of the next (`.../Svc_1_0.hout/nunavut/support/serialization.h`)", f.node.lineno)
+
+
 def rule_input_closure(ctx, px):
     R = "R-C08-INPUT-CLOSURE"
     ctx.rule(
@@ -751,6 +780,7 @@ def run(ctx):
     rule_dryrun(ctx, px)
     rule_dryrun_flow(ctx, px)
     rule_list_sibling(ctx, px)
+    rule_lister(ctx, px)
     rule_input_closure(ctx, px)
     rule_template_listing(ctx, px)
     rule_loader_enumeration(ctx, px)
